@@ -19,7 +19,8 @@ RULE = ("every ordered pair (old, new) of sequences over {0,1,2} with length <= 
         "hand-written element text, as list / tuple / list nested in a list / list as dict value; every pair of key->value "
         "maps over {a,b,c}x{0,1} as dict display and as dataclass keyword call; one session with only fix approved; "
         "non-trivial = old != new and at least one element survives (LCS >= 1) so the preservation clauses are exercised; "
-        "distinct = (shape, old, new)")
+        "distinct = (shape, old, new)"
+        "; plus local classes of alternating kinds under one name (strict batches) and defaultdict(factory, {...}) displays")
 ASSUMPTIONS = ["element values are small ints; hand-written text v -> {0:'0+0', 1:'1+0', 2:'1+1'}",
                "the direct align() probe is skipped (with a note) if inline_snapshot._align no longer exists"]
 BATCH = 60
